@@ -82,7 +82,7 @@ def run(ctx):
         case["position"] = i
         case["replacement"] = wd
         case["expected_segment"] = d2["o5"] + d2["t"]
-        check_case(ctx, case)
+        ctx.guard(check_case, case)
     if ctx.tier == "thorough" and ctx.scale == 1:
         registry_pairs(ctx)
 
